@@ -1071,6 +1071,7 @@ class Oracle:
         self.nshrunk = {}
         self.tie = None
         self.ncalls = 0
+        self.nauto_hist = 0
         self.unexpanded = {}       # macro -> smallest input with eval ok and no expansion
         # macros without any expansion code (default get_proof_term raises NotImplementedError) and z3 (its
         # `expand` raises NotImplementedError): nothing to compare, their eval is not even run (z3 is slow)
@@ -1154,7 +1155,13 @@ class Oracle:
         if depth < 2 and not history:
             for (n2, a2, t2) in r.get("nested", []):
                 org2 = {k2: v2 for k2, v2 in origin.items() if k2 != "off"}
-                self.run_one(n2, a2, t2, dict(org2, nested_in=name), "nested", depth + 1)
+                rn = self.run_one(n2, a2, t2, dict(org2, nested_in=name), "nested", depth + 1)
+                if rn is not None and n2 == "auto" and t2 and self.nauto_hist < self.ctx.scale(40, 400):
+                    # `auto` is reached only as a nested step: give its recorded calls the call-order scenario too
+                    from kernel.thm import Thm as _Thm
+                    self.nauto_hist += 1
+                    self.run_history([(n2, a2, [_Thm(t.prop) for t in t2]), (n2, a2, []), (n2, a2, t2), (n2, a2, [])],
+                                     dict(org2, kind="history", nested_in=name))
         return r
 
     def run_history(self, calls, origin, setup=None):
@@ -1977,6 +1984,13 @@ def apply_setup(impl, setup):
             continue
         auto.add_global_autos(head, auto.solve_rules(list(ent["thms"])))
         added.append(head)
+    added_norm = []
+    for ent in (setup or {}).get("register_norm", []):
+        head = dec_obj(ent["head"])
+        if head in auto.global_autos_norm:
+            continue
+        auto.add_global_autos_norm(head, auto.norm_rules(list(ent["thms"])))
+        added_norm.append(head)
     for mod in (setup or {}).get("modules", []):
         import importlib
         importlib.import_module(mod)
@@ -1984,6 +1998,8 @@ def apply_setup(impl, setup):
     def undo():
         for h in added:
             auto.global_autos.pop(h, None)
+        for h in added_norm:
+            auto.global_autos_norm.pop(h, None)
         try:
             auto.clear_cache()
         except Exception:  # noqa
@@ -2049,6 +2065,66 @@ def auto_rule_histories(ctx, impl, oracle):
             undo()
     ctx.coverage["auto_rule_histories"] = {"rule_like_theorems": len(rules), "histories": nh}
     ctx.log("histories auto-rules: %d histories (of %d rule-like theorems) in %.1fs; findings so far: %d" % (nh, len(rules), time.time() - t0, len(oracle.found)))
+
+
+def auto_norm_histories(ctx, impl, oracle):
+    """The same call orders for the equality branch of `auto` (auto.norm + norm_record): a conditional rewrite
+    rule A1 --> ... --> lhs = rhs of the library is registered with auto.add_global_autos_norm(head,
+    auto.norm_rules([name])) and `auto (lhs = rhs)` is asked for with and without the premises |- Ai."""
+    import time
+    from kernel.term import Var, Inst, Eq
+    from kernel.type import TyInst, NatType
+    from kernel.thm import Thm
+    t0 = time.time()
+    theory, auto = impl.theory, impl.auto
+    rules = []
+    for nm in sorted(theory.thy.get_data("theorems").keys()):
+        try:
+            th = theory.get_theorem(nm)
+            As, C = th.prop.strip_implies()
+            if th.hyps or not (1 <= len(As) <= 2) or th.prop.size() > 50 or not C.is_equals():
+                continue
+            lhs, rhs = C.lhs, C.rhs
+            if not lhs.is_comb() or not lhs.head.is_const() or lhs.head.name in LOGICAL_HEADS or lhs.get_type() == impl.htype.BoolType:
+                continue
+            if any(A.is_conj() or A.is_disj() or A.is_implies() or A.is_forall() or A.is_equals() for A in As):
+                continue
+            ls = set(v.name for v in lhs.get_svars())
+            if not ls or any(v.name not in ls for t in As + [rhs] for v in t.get_svars()):
+                continue
+            rules.append(nm)
+        except Exception:  # noqa
+            continue
+    limit = ctx.scale(25, 150)
+    step = max(1, len(rules) // limit)
+    nh = nagree = 0
+    for nm in rules[::step][:limit]:
+        th = theory.get_theorem(nm)
+        try:
+            tyinst = TyInst({stv.name: NatType for stv in th.prop.get_stvars()})
+            prop = th.prop.subst_type(tyinst)
+            inst = Inst({sv.name: Var("h_" + sv.name, sv.T) for sv in prop.get_svars()})
+            As, C = prop.subst(inst).strip_implies()
+            head = C.lhs.head
+            if head in auto.global_autos_norm or head in auto.global_autos or C.rhs.head in auto.global_autos_norm:
+                continue
+            setup = {"register_norm": [{"thms": [nm], "head": enc_obj(head)}]}
+        except Exception:  # noqa
+            continue
+        undo = apply_setup(impl, setup)
+        try:
+            free = [Thm(A) for A in As]
+            assumed = [Thm(A, (A,)) for A in As]
+            calls = [("auto", C, []), ("auto", C, free), ("auto", C, []), ("auto", C, assumed), ("auto", C, [])]
+            res = oracle.run_history(calls, {"kind": "history", "family": "auto-norm-rules", "theorem": nm}, setup=setup)
+            nh += 1
+            if res and len(res) > 1 and res[1] is not None and res[1]["verdict"] == "agree":
+                nagree += 1
+        finally:
+            undo()
+    ctx.coverage.setdefault("auto_norm_histories", []).append({"conditional_rewrites": len(rules), "histories": nh, "second_call_agrees": nagree})
+    ctx.log("histories auto-norm-rules: %d histories (%d where the call with premises is proved; %d conditional rewrites) in %.1fs; findings so far: %d"
+            % (nh, nagree, len(rules), time.time() - t0, len(oracle.found)))
 
 
 def integral_auto_histories(ctx, impl, oracle):
@@ -2127,6 +2203,7 @@ def run_generators(ctx, impl, oracle, mut):
             load_state(impl, thy, None)
             ho_theorem_stream(ctx, impl, oracle, mut)
             auto_rule_histories(ctx, impl, oracle)
+            auto_norm_histories(ctx, impl, oracle)
         except Exception as e:  # noqa
             ctx.log("ho-theorem / history streams on %s stopped: %s: %s" % (thy, type(e).__name__, e))
             ctx.count("generator-error:ho-or-history:" + thy)
